@@ -163,9 +163,7 @@ def conRows (dummy : Nat) : Con → M (List CRow × List Cone)
   | .primal y K => do pure (← linRows y dummy 1, K)
   | .dual y K => do
     let (ym, K') ← dualMap y K
-    if ym.isEmpty then
-      -- `np.hstack([])` raises before the size check
-      throw "ValueError: need at least one array to concatenate"
+    if ym.isEmpty then pure ([], K')     -- only zero cones: the dual is the free cone, no rows
     else
       let rows ← ym.mapM fun p => do pure (⟨← rowEntries p.1 dummy 1, p.1.off, p.2⟩ : CRow)
       pure (rows, K')
@@ -189,7 +187,10 @@ def compileBlocks (cons : List Con) (dummy : Nat) : M (List CRow × List Cone) :
   let e2 ← atoms.mapM fun a => do let (r, k) ← epiRows a dummy; pure (r, [k])
   let e3 ← setm.mapM (conRows dummy)
   let all := e1 ++ e2 ++ e3
-  pure (all.flatMap (·.1), all.flatMap (·.2))
+  if (all.flatMap (·.1)).isEmpty then
+    -- `np.max(A_rows)` of an empty triplet list
+    throw "ValueError: zero-size array to reduction operation maximum"
+  else pure (all.flatMap (·.1), all.flatMap (·.2))
 
 /-! ### assembly: sorted distinct column ids, dense A, b -/
 
@@ -229,7 +230,8 @@ structure VarInfo where
   gen : Nat
   deriving Repr, BEq
 
-def leadingId (v : VarInfo) : Nat := v.ids.foldl min (v.ids.headD 0)
+/-- `leading_scalar_variable_id()` of a proper Variable: the first recorded id -/
+def leadingId (v : VarInfo) : Nat := v.ids.headD 0
 
 def insertVar (v : VarInfo) : List VarInfo → List VarInfo
   | [] => [v]
@@ -243,7 +245,7 @@ def variableMap (cols : List Nat) (vars : List VarInfo) : M (List (String × Lis
   | v0 :: _ =>
     if vars.any (fun v => v.gen != v0.gen) then throw "RuntimeError: Variables of distinct generation"
     else
-      let sorted := vars.reverse.foldl (fun acc v => insertVar v acc) []
+      let sorted := vars.foldl (fun acc v => insertVar v acc) []     -- stable
       pure (sorted.map fun v => (v.name, v.ids.map (colOf cols)))
 
 def compile (cons : List Con) (dummy : Nat) (vars : List VarInfo) : M (Compiled × List (String × List Int)) := do
@@ -262,9 +264,9 @@ def compileObjective (cols : List Nat) (obj : SRow) : M (List Rat × Rat) := do
   if pairs.any (fun p => p.1 < 0) then
     throw "ValueError: objective contains a ScalarVariable that is in no constraint"
   else
-    pure ((List.range cols.length).map fun j =>
-      match (pairs.reverse.find? fun p => p.1 == (j : Int)) with
+    pure ((List.range cols.length).map (fun (j : Nat) =>
+      match (pairs.reverse.find? fun p => p.1 == Int.ofNat j) with
       | some p => p.2
-      | none => 0, obj.off)
+      | none => (0 : Rat)), obj.off)
 
 end Sageopt.Compile
